@@ -99,6 +99,19 @@ class Transform(Unit):
                         spec.cu[i] = g.rng.choice([INF, 2.0, 0.5, 0.0])
                 omit = True
             sc = gen_scaling(g, spec)
+            if sc is not None and k % 13 == 7:
+                # a finite bound whose SCALED value is astronomically large is still a bound
+                j = g.rng.randrange(spec.n)
+                e = g.rng.randint(58, 66)
+                if g.rng.random() < 0.5:
+                    spec.ub[j] = 2.0 ** e
+                    if spec.lb[j] > spec.ub[j]:
+                        spec.lb[j] = -INF
+                else:
+                    spec.lb[j] = -(2.0 ** e)
+                    if spec.ub[j] < spec.lb[j]:
+                        spec.ub[j] = INF
+                sc["vw"][j] = g.rng.randint(4, 8)
             xt = internal_point(g, spec, sc)
             yt = g.vec(spec.m, kmax=8, jmax=1)
             x0 = g.point_any(spec.lb, spec.ub)
@@ -107,8 +120,11 @@ class Transform(Unit):
             y0 = g.vec(spec.m, kmax=8, jmax=1)
             dt = g.vec(len(xt), kmax=8, jmax=1)
             policy = g.rng.choice(["fresh", "memo", "memo", "refill"])
+            fmt = g.rng.choice(["coo", "csr", "csc"])
+            if k % 7 == 4:
+                fmt, policy = "alt", "fresh"      # another storage format on every call: the same matrix all the same
             cases.append({"spec": spec.to_json(), "sc": sc, "x": xt, "y": yt, "x0": x0, "y0": y0, "d": dt,
-                          "fmt": g.rng.choice(["coo", "csr", "csc"]),
+                          "fmt": fmt,
                           "explicit_zeros": g.rng.random() < 0.3 or policy == "refill",
                           "dup": g.rng.random() < 0.3 and policy != "refill",
                           "policy": policy, "twice": g.rng.random() < 0.6, "omit": omit, "x0_int": k % 5 == 2})
@@ -122,7 +138,7 @@ class Transform(Unit):
         T = tr.trans_problem
         x = np.array(case["x"])
         y = np.array(case["y"])
-        if case.get("policy") == "refill":
+        if case.get("policy") == "refill" or case.get("fmt") == "alt":
             # another point first: the callbacks then hand out the same objects again, refilled
             x1 = x + 1.0
             y1 = y - 1.0
@@ -137,7 +153,7 @@ class Transform(Unit):
                 T.cons(x), T.cons_jac(x)
             tr.transform_sol(np.array(case["x0"]), np.array(case["y0"]))
         x0a, y0a = np.array(case["x0"]), np.array(case["y0"])
-        if case.get("x0_int") and np.all(x0a == np.round(x0a)):
+        if case.get("x0_int") and np.all(x0a == np.round(x0a)) and np.all(np.abs(x0a) < 2.0 ** 50):
             x0a = x0a.astype(int)          # a start given as integers is the same start
         (tx, ty) = tr.transform_sol(x0a, y0a)
         (rx, ry, rd) = tr.restore_sol(x, y, np.array(case["d"]))
